@@ -2,7 +2,10 @@
 THEOREMS_TIED = ["Rustic.Props.C07.uploaded_exactly_added", "Rustic.Props.C07.rebackup_adds_nothing",
                  "Rustic.Props.C07.added_blobs_are_not_indexed", "Rustic.Props.C07.full_backup_adds_every_new_chunk",
                  "Rustic.Props.C07.edit_reuploads_only_disturbed_chunks", "Rustic.Props.C07.tree_and_data_with_equal_id_both_stored",
-                 "Rustic.Props.C07.settled_blob_is_never_stored_again", "Rustic.Props.C07.indexed_never_shrinks"]
+                 "Rustic.Props.C07.settled_blob_is_never_stored_again", "Rustic.Props.C07.indexed_never_shrinks",
+                 "Rustic.Props.C07.full_backup_adds_are_content_chunks", "Rustic.Props.C07.chunks_independent_of_recorded_size", "Rustic.Props.C07.archive_succeeds_whatever_the_recorded_sizes",
+                 "Rustic.Props.C07.stored_content_adds_nothing_whatever_the_node",
+                 "Rustic.Props.C07.reload_with_unreadable_index_file_fails", "Rustic.Props.C07.reloaded_index_has_every_listed_blob"]
 
 TRUSTED = [
     "hand-written models lean/Rustic/Model/Archive.lean (archiver pipeline + packer pipeline as a transition system), Model/Tree.lean, Model/Parent.lean, Model/Chunker.lean + Rabin.lean (C06)",
@@ -12,15 +15,16 @@ TRUSTED = [
 ]
 ASSUMPTIONS = [
     "uploaded_exactly_added is about key SETS: between a pack flush and its indexing the same blob can be stored twice in one run (TODO in packer.rs; Lean witness kept) — the harness asserts no duplicate only for the default pack size, where no flush happens before finalize",
-    "`once the index has been reloaded`: rebackup_adds_nothing takes any index that contains the first index plus what the first run added",
+    "`once the index has been reloaded`: rebackup_adds_nothing takes any index that contains the first index plus what the first run added; reload_with_unreadable_index_file_fails / reloaded_index_has_every_listed_blob (over C17's loader model) say that a reload delivers such an index or fails — the harness injects a failing read of one index file between backups",
+    "the size a node RECORDS (node.meta.size) is only an allocation hint of the chunker: chunks_independent_of_recorded_size is stated for backups without parent (a parent-based backup compares the recorded size with the parent's, C11); the model driver takes the chunk list from the content and the recorded size into the node, as the code does",
     "edit locality is inherited from C06 (chunksSpec); the run-time check compares the real chunk sets with the chunker model under edit scripts",
 ]
 RULE = ("ops from harness/src/c07.rs, one splitmix64 PRNG (VERIF_SEED): `many` = one packer run with more blobs than the indexer's MAX_COUNT and blobs recurring behind the intermediate index flush; `hist` = rabin parameter sets (64/64/256 … 512/70/4096; 4096/4096/8192 when a tree-collision file occurs) x initial "
         "trees (1-4 files, up to 2 nested dirs, random/periodic/low-entropy contents 0-4.5 kB) x 1-5 follow-up states each made by 0-2 edits (prepend/insert/delete/overwrite/append/truncate at "
-        "random offsets, duplicate, rename, remove, new file, file = serialised tree of a directory; zero edits = unchanged source) x forced / parent-based; time stamps are full (second, nanosecond) pairs — most rewrites fall into the SAME second as the previous write (nanoseconds differ by 1 ns .. 0.5 s), some into the next second with equal nanoseconds; 8 directed histories on every seed overwrite one file in place (same length) with same-second / next-second / unchanged / same-stamp-other-size stamps; `pack` = 0-40 adds over 1-12 ids, both "
+        "random offsets, duplicate, rename, remove, new file, file = serialised tree of a directory, the content of a file once more behind a node whose RECORDED size is not the content length (0 = stdin-style / smaller = grown after stat / larger = shrunk) and vice versa; 1 new file in 4-5 is such a node; zero edits = unchanged source) x forced / parent-based x (1 history in 3) a failing read of one index file while the index is reloaded before backup i (the reload is repeated without the fault when it failed, else the backup runs with what it returned); 12 directed stream histories on every seed (same content as file and as stream in both orders, insert into the stream, append with the stale size, too large size; 3 parameter sets, half of them with index read faults); time stamps are full (second, nanosecond) pairs — most rewrites fall into the SAME second as the previous write (nanoseconds differ by 1 ns .. 0.5 s), some into the next second with equal nanoseconds; 8 directed histories on every seed overwrite one file in place (same length) with same-second / next-second / unchanged / same-stamp-other-size stamps; `pack` = 0-40 adds over 1-12 ids, both "
         "types, pack sizes 1 B … 4 MB. Non-trivial = a run that stored at least one blob or a history with >= 2 runs; distinct by hash of (op, observation).")
 EXPLANATION = ("Theorems: stored keys = keys handed to the packers for every schedule (typed indexer set); a blob whose pack is indexed is never stored again by any continuation of the run, and Indexer.indexed never shrinks (the intermediate index-file flush keeps it); added blobs are exactly the ones the index lacks; re-backup after index reload adds "
-               "nothing and gives the same tree id; edits re-upload only chunks before the resynchronisation point (from C06); tree and data blob with equal id both stored. Correspondence: per "
+               "nothing and gives the same tree id; what a backup without parent hands to the data packer is item by item the chunks of the CONTENT the index lacks, whatever size the nodes record (stdin-style nodes); a reload of the index fails when any index file cannot be read and otherwise knows every listed blob; edits re-upload only chunks before the resynchronisation point (from C06); tree and data blob with equal id both stored. Correspondence: per "
                "real backup run the rank of the tree id, data_blobs, tree_blobs, data_added_files and the set of newly indexed blob keys (data by plaintext digest, trees by directory) equal the "
                "model's; oracles: check --read-data clean after every run, packs written = packs indexed, no key stored twice.")
 
